@@ -12,7 +12,7 @@ for m in seeded/*/meta.json; do
   fi
   res=""
   for p in $props; do
-    out=$(timeout ${SEED_TIMEOUT:-1200} ./bin/gosym check $p --repo $d --no-evidence 2>&1 | grep -E "^(VIOLATION|OK|gosym)" | head -1 | cut -c1-60)
+    out=$(timeout ${SEED_TIMEOUT:-1200} ./bin/gosym check $p --repo $d --no-evidence 2>&1 | grep -E "^(VIOLATION|OK|gosym)" | sort -r | head -1 | cut -c1-60)
     case "$out" in VIOLATION*) res="$res $p:caught";; OK*) res="$res $p:MISSED";; *) res="$res $p:BROKEN($out)";; esac
   done
   echo "$sid:$res"
